@@ -201,7 +201,7 @@ func runTrial(run *vk.Run, t trial) (out outcome) {
 			// for 2.5 s, i.e. beyond the client's upgrade timeout of 1 s, while the websocket answers at once: the
 			// client's wait for its last poll outlasts the timer of the attempt (seeded C07-H)
 			for _, o := range px.Conns() {
-				if o != c && !o.IsWS() {
+				if o != c { // every other connection is a polling one (a trial has one websocket); Head of a connection still being set up is not read
 					o.SetStall(true)
 					go func(o *proxy.Conn) { time.Sleep(2500 * time.Millisecond); o.SetStall(false) }(o)
 				}
